@@ -109,7 +109,7 @@ func c11Observe(mode, ctxKind, pred string) (string, string) {
 	}
 	var text string
 	switch ctxKind {
-	case "top", "match", "match-silent", "existsormatch-silent":
+	case "top", "top-silent", "match", "match-silent", "existsormatch-silent":
 		text = prefix + pred
 	case "filter":
 		text = prefix + "$ ? (" + pred + ")"
@@ -143,7 +143,7 @@ func c11Observe(mode, ctxKind, pred string) (string, string) {
 		}
 		return "?", o.String()
 	}
-	o := implQuery(p, doc, runCfg{})
+	o := implQuery(p, doc, runCfg{silent: ctxKind == "top-silent"})
 	if o.Class == "hard" {
 		return "E", o.String()
 	}
@@ -151,7 +151,7 @@ func c11Observe(mode, ctxKind, pred string) (string, string) {
 		return "?", o.String()
 	}
 	switch ctxKind {
-	case "top", "exists":
+	case "top", "top-silent", "exists":
 		if len(o.Items) == 1 {
 			switch o.Items[0] {
 			case true:
@@ -241,6 +241,34 @@ func checkC11(c Case) *Failure {
 		return nil
 	case "law":
 		return checkC11Law(c)
+	case "compound-consistency":
+		// whatever outcome a compound condition p has as a predicate check, !(p) is its Kleene negation
+		// (an error stays an error), (p) is unknown is true exactly for unknown, and WithSilent changes nothing
+		p := c.Path
+		mode := c.Extra["mode"]
+		o1, d1 := c11Observe(mode, "top", p)
+		if o1 == "?" {
+			return &Failure{Sig: "C11/compound/unexpected-observation", Expected: "T, F, U or E", Observed: d1}
+		}
+		if os, ds := c11Observe(mode, "top-silent", p); os != o1 {
+			return &Failure{Sig: "C11/compound/silent-changes-the-outcome/" + o1 + "-" + os, Expected: o1 + ": " + d1, Observed: os + ": " + ds}
+		}
+		wantNot := map[string]string{"T": "F", "F": "T", "U": "U", "E": "E"}[o1]
+		if on, dn := c11Observe(mode, "top", "!("+p+")"); on != wantNot {
+			return &Failure{Sig: "C11/compound/negation-of-" + o1 + "-is-" + on, Expected: wantNot + " (p: " + d1 + ")", Observed: dn}
+		}
+		wantU := map[string]string{"T": "F", "F": "F", "U": "T", "E": "E"}[o1]
+		if ou, du := c11Observe(mode, "top", "("+p+") is unknown"); ou != wantU {
+			sig := "C11/compound/is-unknown-of-" + o1 + "-is-" + ou
+			if o1 == "E" && ou == "T" {
+				sig = "C11/known/isunknown-swallows-hard-error"
+			}
+			return &Failure{Sig: sig, Expected: wantU + " (p: " + d1 + ")", Observed: du}
+		}
+		if of, df := c11Observe(mode, "filter", p); !(of == "E" && o1 == "E" || of == "T" && o1 == "T" || of == "FU" && (o1 == "F" || o1 == "U")) {
+			return &Failure{Sig: "C11/compound/filter-disagrees/" + o1 + "-" + of, Expected: o1 + ": " + d1, Observed: of + ": " + df}
+		}
+		return nil
 	case "ended-context-operand":
 		// the E operand realised by the context ending while the operand of is unknown is evaluated
 		out, pc, _ := c20Run(c, int64(c.K))
@@ -256,7 +284,7 @@ func checkC11(c Case) *Failure {
 }
 
 func runC11(r *Run) {
-	r.Rule("complete truth tables: for each connective (&&, ||, !, is unknown) every assignment of {T,F,U,E(hard error)} to its operands, each outcome realised by EVERY member of a family of 9-13 realisations (comparison, exists, starts with, like_regex, nested connective, is unknown, arithmetic error, strict structural error; hard errors from an unbound variable, from a zone-less vs zone-aware datetime comparison without WithTZ, from a tz-requiring cast and from an invalid decimal precision) => all ordered pairs of realisations, observed as a top-level predicate check (Query, Match, Match and ExistsOrMatch under WithSilent), inside a filter, inside exists(filter), in both modes, against the Kleene tables (with an E operand: {hard error} or the value decided by the other operand); E also realised by the context ending at the k-th poll (every k; Canceled, DeadlineExceeded, cancel-with-cause) while the operand of is unknown is evaluated; then the laws (commutativity in value, double negation, De Morgan, is unknown two-valued) over all ordered pairs of a generated condition pool x all documents of <=3 nodes; non-trivial = every evaluated combination (each is a distinct program)")
+	r.Rule("complete truth tables: for each connective (&&, ||, !, is unknown) every assignment of {T,F,U,E(hard error)} to its operands, each outcome realised by EVERY member of a family of 9-13 realisations (comparison, exists, starts with, like_regex, nested connective, is unknown, arithmetic error, strict structural error; hard errors from an unbound variable, from a zone-less vs zone-aware datetime comparison without WithTZ, from a tz-requiring cast and from an invalid decimal precision) => all ordered pairs of realisations, observed as a top-level predicate check (Query, Match, Match and ExistsOrMatch under WithSilent), inside a filter, inside exists(filter), in both modes, against the Kleene tables (with an E operand: {hard error} or the value decided by the other operand); E also realised by the context ending at the k-th poll (every k; Canceled, DeadlineExceeded, cancel-with-cause) while the operand of is unknown is evaluated; every compound (a op b) over all ordered pairs of realisations taken as a whole: !(p) is the negation of p's own outcome, (p) is unknown true exactly for unknown, the same outcome under WithSilent and inside a filter; then the laws (commutativity in value, double negation, De Morgan, is unknown two-valued) over all ordered pairs of a generated condition pool x all documents of <=3 nodes; non-trivial = every evaluated combination (each is a distinct program)")
 	type job struct{ c Case }
 	var jobs []Case
 	modes := []string{"lax", "strict"}
@@ -321,6 +349,36 @@ func runC11(r *Run) {
 	})
 	r.states.Add(int64(len(cells)))
 	r.Extra("truth_table_cells_covered", len(cells))
+	// compound consistency: every ordered pair of realisations under && and ||, the compound taken as a whole
+	var cjobs []Case
+	for _, mode := range modes {
+		for _, a := range outs {
+			for _, ra := range kleeneFamilies[a] {
+				if ra.mode != "" && ra.mode != mode {
+					continue
+				}
+				for _, b := range outs {
+					for _, rb := range kleeneFamilies[b] {
+						if rb.mode != "" && rb.mode != mode {
+							continue
+						}
+						for _, op := range []string{"&&", "||"} {
+							cjobs = append(cjobs, Case{Rule: "compound-consistency", Path: "(" + ra.text + ") " + op + " (" + rb.text + ")", Doc: c11Doc, Extra: map[string]string{"mode": mode}})
+						}
+					}
+				}
+			}
+		}
+	}
+	r.Bound("compound_consistency_cases", len(cjobs))
+	r.ParFor(len(cjobs), func(i int) {
+		r.evals.Add(1)
+		r.traces.Add(5)
+		r.transitions.Add(5)
+		if f := checkC11(cjobs[i]); f != nil {
+			r.Fail(cjobs[i], f)
+		}
+	})
 	// E realised by an ended context: (p) is unknown for every realisation p, at top level and in a filter,
 	// the context reporting done from the k-th poll for every k, three kinds of ended context
 	var ejobs []Case
